@@ -1,7 +1,7 @@
 CONSTANTS
-  MaxKids = 2
+  MaxKids = 40
   Extra = {"zz", "ex:t", "ex:Name", "key", "Name", "Statement", "Parent", "Ext", ":x", "x:"}
-INIT Init
-NEXT Next
-INVARIANTS OneToOne Rejects Export
+INIT TInit
+NEXT TNext
+POSTCONDITION Consumed
 CHECK_DEADLOCK FALSE
